@@ -295,20 +295,26 @@ class PduBufCheck(Standard):
             k = ",".join(c.cfg[1:4])
             if len(c.cfg) >= 4 and re.fullmatch(r"[01],\d+,\d+", k) and not any(k in b for b in buckets):
                 buckets.append([k])
-        files = extract_sources(REPO)
+        memo = ctx.__dict__.setdefault("pdubuf_memo", {})       # per run: the sources are read once
+        if "files" not in memo:
+            memo["files"] = extract_sources(REPO)
+        files = memo["files"]
         groups = []
         for b in buckets:
             cs = [c for c in cases if ",".join(c.cfg[1:4]) in b]
             if not cs:
                 continue
-            fs = dict(files)
-            fs["pdubuf_configs.inc"] = "".join("CFG(%s)\n" % k for k in b)
-            key = "pdubuf_" + hashlib.sha1(repr(sorted(fs.items())).encode()).hexdigest()[:10]
-            d = os.path.join(ctx.bdir, key + ".d")
-            os.makedirs(d, exist_ok=True)
-            for name, text in fs.items():
-                with open(os.path.join(d, name), "w") as f:
-                    f.write(text)
+            if tuple(b) not in memo:
+                fs = dict(files)
+                fs["pdubuf_configs.inc"] = "".join("CFG(%s)\n" % k for k in b)
+                key = "pdubuf_" + hashlib.sha1(repr(sorted(fs.items())).encode()).hexdigest()[:10]
+                d = os.path.join(ctx.bdir, key + ".d")
+                os.makedirs(d, exist_ok=True)
+                for name, text in fs.items():
+                    with open(os.path.join(d, name), "w") as f:
+                        f.write(text)
+                memo[tuple(b)] = (key, d)
+            key, d = memo[tuple(b)]
             groups.append((key, ["-I" + d], cs))
         rest = [c for c in cases if not any(c in g[2] for g in groups)]
         if rest:  # malformed CASE line: let the first harness answer NOCONFIG
